@@ -17,7 +17,8 @@ Definition go_decides (g : gbool) : bool := not_nil_g g.
 
 (* ---- pkg/cl/seqfunvars.go: setKeysItem / setKeysIf ---------------------------------------- *)
 (* The keyword switch knows :key :test :start :end :count :from-end; anything else (:test-not) is a
-   TypePanic; :count wants a fixnum (nil is a TypePanic); sfv.end = -1 is None; count = MaxInt is None. *)
+   TypePanic; :count wants a fixnum or nil (nil = no limit: count stays MaxInt); the functions without
+   :count reject the keyword whatever its value; sfv.end = -1 is None; count = MaxInt is None. *)
 Record sfv := mkSfv { v_start : nat; v_end : option nat; v_count : option Z; v_from_end : bool }.
 Definition no_count (f : fname) : bool :=
   match f with
@@ -31,19 +32,17 @@ Definition is_if (f : fname) : bool :=
   end.
 (* setKeysIf has no :test case at all *)
 Definition parse_sfv (c : call) : option sfv :=
-  match c_test c, c_count c with
-  | TTestNot _, _ => None
-  | TTest _, _ => if is_if (c_fn c) then None else
-      match c_count c with
-      | CNil => None
-      | CNum z => if no_count (c_fn c) then None
-                  else Some (mkSfv (match c_start c with Some s => s | None => 0%nat end) (c_end c) (Some z) (c_from_end c))
-      | CAbsent => Some (mkSfv (match c_start c with Some s => s | None => 0%nat end) (c_end c) None (c_from_end c))
-      end
-  | _, CNil => None
-  | _, CNum z => if no_count (c_fn c) then None
-                 else Some (mkSfv (match c_start c with Some s => s | None => 0%nat end) (c_end c) (Some z) (c_from_end c))
-  | _, CAbsent => Some (mkSfv (match c_start c with Some s => s | None => 0%nat end) (c_end c) None (c_from_end c))
+  let st := match c_start c with Some s => s | None => 0%nat end in
+  let counted :=
+    match c_count c with
+    | CAbsent => Some (mkSfv st (c_end c) None (c_from_end c))
+    | CNil => if no_count (c_fn c) then None else Some (mkSfv st (c_end c) None (c_from_end c))
+    | CNum z => if no_count (c_fn c) then None else Some (mkSfv st (c_end c) (Some z) (c_from_end c))
+    end in
+  match c_test c with
+  | TTestNot _ => None
+  | TTest _ => if is_if (c_fn c) then None else counted
+  | TDefault => counted
   end.
 
 (* how one element is matched: item functions call test(item, key(elt)) or ObjectEqual(item, key(elt));
